@@ -112,7 +112,10 @@ func genOIDCDoc(c *sim.Case, role int) doc {
 		[]any{doc{"header": ""}, doc{"preamble": "Bearer"}, doc{}})
 	c17Field(c, d, "access_token", 4, 2, 1, []any{doc{"header": "x-access-token"}, doc{"header": "x-at", "preamble": "Bearer"}}, []any{doc{"header": ""}, doc{}})
 	c17Field(c, d, "logout", 3, 3, 2, []any{doc{"path": "/logout", "redirect_uri": "http://idp.test/logout"}, doc{"path": "/signout"}},
-		[]any{doc{"path": "/"}, doc{"path": ""}, doc{"path": "/cb"}, doc{"redirect_uri": "http://idp.test/logout"}, doc{}, doc{"path": "/oauth/callback"}})
+		[]any{doc{"path": "/"}, doc{"path": ""}, doc{"path": "/cb"}, doc{"redirect_uri": "http://idp.test/logout"}, doc{}, doc{"path": "/oauth/callback"},
+			// paths that are not URLs at all: nothing says a logout path has to parse
+			doc{"path": "/logout%"}, doc{"path": "/100%off"}, doc{"path": "/log\u007fout"}, doc{"path": ":logout"}, doc{"path": "%zz"}, doc{"path": "/a b"}, doc{"path": "/?logout"}, doc{"path": "//"}, doc{"path": "logout"},
+			doc{"path": "/logout", "redirect_uri": "%zz"}, doc{"path": "/logout", "redirect_uri": ":"}})
 	c17Field(c, d, "absolute_session_timeout", 4, 2, 1, []any{3600, 0}, []any{4294967295, "60", -1, 1.5})
 	c17Field(c, d, "idle_session_timeout", 4, 2, 1, []any{600, 0}, []any{4294967295, "60", -1})
 	switch sim.Weighted(c, "ca", 8, 1, 1, oddW) {
